@@ -27,7 +27,8 @@ RULE = ("one run = one Resampler (or resampling actor) with drawn period, align_
 QUICK_RUNS = 4000
 THOROUGH_RUNS = 250_000
 EXPECT_PROBES = ["created_on_grid", "created_1us_before_grid", "created_1us_after_grid", "tick_late_ge_1_period",
-                 "series_added_while_running", "slow_sink", "stall_exactly_one_period", "actor_resample_restarted"]
+                 "series_added_while_running", "slow_sink", "stall_exactly_one_period", "actor_resample_restarted",
+                 "moving_window_variant"]
 
 UNIX_EPOCH = datetime.fromtimestamp(0.0, tz=timezone.utc)
 PERIODS_US = [200_000, 1_000_000, 1_500_000, 3_000_000, 7_300_000]
@@ -105,7 +106,7 @@ def _check(sim: Sim, rec: Recorder, period_us: int, align_to: datetime | None, c
 
 def scenario(sim: Sim) -> None:
     ch = sim.ch
-    variant = ["raw", "actor"][ch.weighted("variant", [7, 3])]
+    variant = ["raw", "actor", "moving_window"][ch.weighted("variant", [6, 3, 1])]
     period_us = ch.choice("period", PERIODS_US)
     period = timedelta(microseconds=period_us)
     ak = ch.weighted("align_kind", [4, 2, 2, 2])
@@ -346,7 +347,65 @@ def scenario(sim: Sim) -> None:
         await actor.stop()
         _check(sim, rec, period_us, align_to, creation_us, variant, calm_end)
 
-    sim.run(main_raw() if variant == "raw" else main_actor())
+    async def main_mw() -> None:
+        """MovingWindow with a resampler config: the window's internal Resampler must put one sample per tick
+        into the ring buffer (observed by tapping the buffer's update method; the data is fed faster than the
+        period).  Also: every non-None tick is in the ring buffer at its own timestamp."""
+        from frequenz.channels import Broadcast
+        from frequenz.quantities import Quantity
+        from frequenz.sdk.timeseries import MovingWindow, Sample
+        from frequenz.sdk.timeseries._resampling import ResamplerConfig
+
+        sim.probe("moving_window_variant")
+        if pre:
+            await _until(sim, pre)
+        creation_us = sim.now_us
+        chan: Any = Broadcast(name="mw-in")
+        cfg = ResamplerConfig(resampling_period=period, align_to=align_to, max_data_age_in_periods=3.0)
+        mw = MovingWindow(size=period * 100, resampled_data_recv=chan.new_receiver(limit=5000),
+                          input_sampling_period=period / 4, resampler_config=cfg,
+                          align_to=align_to if align_to is not None else sim.epoch)
+        # tap the sink the window registers with its internal Resampler (every tick, also None-valued ones which
+        # the window does not write into its buffer)
+        assert mw._resampler is not None
+        orig_add = mw._resampler.add_timeseries
+
+        def add(name: str, source: Any, sink: Any) -> bool:
+            async def tapped(sample: Any) -> None:
+                rec.record("mw", sample.timestamp)
+                await sink(sample)
+
+            return orig_add(name, source, tapped)
+
+        mw._resampler.add_timeseries = add  # type: ignore[method-assign]
+        rec.at_creation.add("mw")
+        tx = chan.new_sender()
+        run_us = nticks * period_us
+        stalls_plan(run_us)
+        n = 0
+        # feed well before the first tick and then 4x per period
+        mw.start()
+
+        async def feeder() -> None:
+            nonlocal n
+            while True:
+                n += 1
+                await tx.send(Sample(sim.wall(), Quantity(float(n))))
+                await asyncio.sleep(period_us / 4e6)
+
+        ft = sim.spawn(feeder())
+        await _until(sim, pre + run_us)
+        await asyncio.sleep((12 * period_us + period_us // 3 + 7) / 1e6)
+        calm_end = sim.now_us
+        if not mw.is_running:
+            sim.violation("liveness", {"variant": variant, "what": "moving window stopped"}, "MovingWindow not running")
+        ft.cancel()
+        await mw.stop()
+        _check(sim, rec, period_us, align_to, creation_us, variant, calm_end)
+        if not rec.ticks.get("mw"):
+            sim.violation("liveness", {"variant": variant, "what": "no tick at all"}, "MovingWindow buffer never updated")
+
+    sim.run(main_raw() if variant == "raw" else (main_actor() if variant == "actor" else main_mw()))
 
 
 async def _until(sim: Sim, when_us: int) -> None:
